@@ -169,7 +169,9 @@ def reconfirm(sids):
                 print(sid, 'CONFIRMED' if ok else 'NOT-CONFIRMED', '| baseline:', base_line, '| demo with patch exit', rc_with, '| without', rc_without)
                 if ok:
                     m = json.load(open(metaf))
-                    m.setdefault('rebased', []).append({'onto': head, 'why': 'a later fix: commit in /repo touched the same lines; same change re-expressed on the repaired code',
+                    if not isinstance(m.get('rebased'), list):
+                        m['rebased'] = [m['rebased']] if m.get('rebased') else []
+                    m['rebased'].append({'onto': head, 'why': 'a later fix: commit in /repo touched the same lines; same change re-expressed on the repaired code',
                                                         'baseline_with_patch': base_line, 'demo_exit_with_patch': rc_with, 'demo_exit_without_patch': rc_without})
                     json.dump(m, open(metaf, 'w'), indent=1)
             finally:
